@@ -80,10 +80,22 @@ func scalarN(v reflect.Value) *big.Int {
 	return nil
 }
 
+// fmtN: decimal up to 64 bits, otherwise x + little-endian bytes without trailing zero bytes
+func fmtN(n *big.Int) string {
+	if n.BitLen() <= 64 {
+		return n.String()
+	}
+	b := n.Bytes() // big-endian, no leading zeros
+	for i, j := 0, len(b)-1; i < j; i, j = i+1, j-1 {
+		b[i], b[j] = b[j], b[i]
+	}
+	return hx(b)
+}
+
 func nList(v reflect.Value) string {
 	xs := make([]string, v.Len())
 	for i := range xs {
-		xs[i] = scalarN(v.Index(i)).String()
+		xs[i] = fmtN(scalarN(v.Index(i)))
 	}
 	return sx(xs...)
 }
@@ -174,10 +186,18 @@ func colTy(c any) string {
 		return sx("map", colTy(v.FieldByName("Keys").Interface()), colTy(v.FieldByName("Values").Interface()))
 	}
 	if t.Kind() == reflect.Slice {
+		if wideBytes(t.Elem()) {
+			// generated ColFixedStrN, N > 32: same wire form as FixedString(N) held in one buffer
+			return sx("fstr", strconv.Itoa(t.Elem().Len()))
+		}
 		return sx("fix", name, strconv.Itoa(int(t.Elem().Size())))
 	}
 	colFail("unsupported column type %s", t)
 	return ""
+}
+
+func wideBytes(e reflect.Type) bool {
+	return e.Kind() == reflect.Array && e.Elem().Kind() == reflect.Uint8 && e.Len() > 32
 }
 
 // reflectIface reads an interface-typed unexported field (ColLowCardinality.index).
@@ -209,7 +229,7 @@ func goValSx(elem any, x reflect.Value) string {
 		}
 		return sx("b", hx(b))
 	case "ColPoint":
-		return sx("pt", scalarN(x.Field(0)).String(), scalarN(x.Field(1)).String())
+		return sx("pt", fmtN(scalarN(x.Field(0))), fmtN(scalarN(x.Field(1))))
 	case "ColDateTime":
 		return sx("n", strconv.FormatUint(uint64(proto.ToDateTime(x.Interface().(time.Time))), 10))
 	case "ColDate":
@@ -222,7 +242,7 @@ func goValSx(elem any, x reflect.Value) string {
 		if x.Type() == reflect.TypeOf(time.Time{}) {
 			colFail("time-valued dictionary over %s", ev.Type())
 		}
-		return sx("n", scalarN(x).String())
+		return sx("n", fmtN(scalarN(x)))
 	}
 	colFail("unsupported dictionary element column %s", ev.Type())
 	return ""
@@ -314,6 +334,17 @@ func colData(c any) string {
 		return sx("lc", sx(xs...), colData(idx), strconv.FormatUint(key, 10), nList(keys))
 	}
 	if t.Kind() == reflect.Slice {
+		if wideBytes(t.Elem()) {
+			n := t.Elem().Len()
+			buf := make([]byte, 0, v.Len()*n)
+			for i := 0; i < v.Len(); i++ {
+				e := v.Index(i)
+				for j := 0; j < n; j++ {
+					buf = append(buf, byte(e.Index(j).Uint()))
+				}
+			}
+			return sx("fstr", hx(buf))
+		}
 		return sx("fix", nList(v))
 	}
 	colFail("unsupported column type %s", t)
